@@ -15,6 +15,11 @@ class PathBudget(Exception):
   pass
 
 
+class ProxyLimit(TypeError):
+  """the code under contract did something with a proxy that the proxy cannot represent (index / float conversion):
+  a limit of the engine -> undecided, never an outcome of the function"""
+
+
 class _Ctx:
   def __init__(self, prefix, base):
     self.prefix = list(prefix)
@@ -176,7 +181,13 @@ class SN:
     return decide(self.e != 0)
 
   def __index__(self):
-    raise TypeError('symbolic number used as an index')
+    raise ProxyLimit('symbolic number used as an index')
+
+  def __float__(self):
+    raise ProxyLimit('symbolic number converted to float')
+
+  def __int__(self):
+    raise ProxyLimit('symbolic number converted to int')
 
   def __repr__(self):
     return 'SN(%s)' % self.e
@@ -209,7 +220,7 @@ def explore(run, base=(), max_paths=20000, catch=(Exception,)):
     try:
       val = run()
       p = Path(cur.pc[cur.nbase:], 'return', val, None)
-    except PathBudget:
+    except (PathBudget, ProxyLimit):
       _CUR = None
       raise
     except catch as ex:      # noqa: BLE001
